@@ -363,6 +363,53 @@ pub fn run_c17(ctx: &Ctx) -> i32 {
     let next = AtomicU64::new(0);
     let deadline = if ctx.budget_s > 0 { Some(Instant::now() + Duration::from_secs(ctx.budget_s)) } else { None };
     std::thread::scope(|s| {
+        // a connection that has to wait for a slot for several seconds (longer than any housekeeping period a
+        // server might have) is still a waiting connection: it must be served once the slot frees
+        if ctx.only_case.is_none() {
+            for (multi, wait_ms) in [(false, 6500u64), (true, 11_000)] {
+                let shared = &shared;
+                if wait_ms > 7000 && !ctx.thorough() {
+                    continue;
+                }
+                s.spawn(move || {
+                    let srv = match Server::start(SrvCfg { conn_limit: 1, idle_s: 2, workers: if multi { Some(2) } else { None }, ..Default::default() }) {
+                        Ok(s) => s,
+                        Err(_) => return,
+                    };
+                    let mut a = match Cli::connect(srv.port) {
+                        Ok(c) => c,
+                        Err(_) => return,
+                    };
+                    if !noop_answered(&mut a, 1, Duration::from_secs(5)) {
+                        return;
+                    }
+                    let mut b = match Cli::connect_plain(srv.port) {
+                        Ok(c) => c,
+                        Err(_) => return,
+                    };
+                    let t0 = Instant::now();
+                    let mut opq = 10;
+                    let mut a_alive = true;
+                    while t0.elapsed() < Duration::from_millis(wait_ms) {
+                        opq += 1;
+                        a_alive &= noop_answered(&mut a, opq, Duration::from_secs(5));
+                        std::thread::sleep(Duration::from_millis(300));
+                    }
+                    drop(a);
+                    let served = noop_answered(&mut b, 99, Duration::from_secs(10));
+                    let mut e = shared.lock().unwrap();
+                    e.evaluations += 1;
+                    e.count("slots:long_wait_scenarios", 1);
+                    e.nontrivial.insert(fnv(format!("long-wait:{}:{}", multi, wait_ms).as_bytes()));
+                    if a_alive && !served {
+                        e.violation(
+                            Viol::new(&["C17"], "waiter-dropped", format!("limit 1: a connection that waited {} ms for the slot (the serving connection kept busy meanwhile) was not served after the slot had freed (its connection: {:?})", wait_ms, b.end)),
+                            json!({"engine":"slots-long-wait","wait_ms":wait_ms,"multi_thread":multi}),
+                        );
+                    }
+                });
+            }
+        }
         for _ in 0..ctx.workers.min(12) {
             let (next, shared) = (&next, &shared);
             s.spawn(move || {
